@@ -85,7 +85,7 @@ Proof.
     destruct (negb ok); [exact Hacc|].
     destruct (jumped r1).
     + apply IH; [eapply sublist_trans; eassumption|].
-      destruct (ps <? r_prev r1); [apply Forall_app; split; [exact Hacc|constructor; [apply Hplain|constructor]]|exact Hacc].
+      destruct (ps <=? r_prev r1); [apply Forall_app; split; [exact Hacc|constructor; [apply Hplain|constructor]]|exact Hacc].
     + apply IH; [eapply sublist_trans; eassumption|exact Hacc].
 Qed.
 
